@@ -278,12 +278,13 @@ func (c *wsConnection) sendPing() error {
 	pingCtx, cancel := context.WithTimeout(c.ctx, c.writeTimeout)
 	defer cancel()
 
-	err := pinger.Ping(pingCtx, c.conn)
-	if err != nil {
+	// Stamp the ping before writing it: the pong can be processed before the write returns,
+	// and a ping stamped after its pong makes that pong look overdue.
+	previous := c.lastPingSentAt.Swap(time.Now().UnixNano())
+	if err := pinger.Ping(pingCtx, c.conn); err != nil {
+		c.lastPingSentAt.Store(previous)
 		return err
 	}
-
-	c.lastPingSentAt.Store(time.Now().UnixNano())
 	return nil
 }
 
